@@ -40,7 +40,7 @@ CHECKS = {
    "Dedicated simulation of command.DefaultLocker alone: 2-8 tasks with random read/write sets lock, hold and release; contexts are cancelled at arbitrary steps, in particular while the waiter sits between observing ctx.Done and dequeuing, so that a release can grant it in exactly that window. Oracle: holder intervals never overlap with a writer; at quiescence no uncancelled request is still waiting; a cancelled Lock returns an error; a final probe write-locking all accounts is granted.",
    "interleavings at the locker's hook points (entry, cancelled, granted, release); memory-level races inside one critical section are out of reach"),
  "C16": ("exploration", "6.C16",
-   "The real ledgerMonitor publishes into a recording publisher that is a scheduling point. At each publish the decoded wire payload must describe an entry already committed at that step (transaction content, revert roles, metadata target and payload); previews publish nothing; in crash-free generations every answered write has its entry published before the answer.",
+   "The real ledgerMonitor publishes into a recording publisher that is a scheduling point. At each publish the decoded wire payload must describe an entry already committed at that step (transaction content, revert roles, metadata target and payload); previews publish nothing; in every generation that ended in an orderly way each committed entry has been described by at least one event by the end of the generation.",
    "at-least-once is judged for crash-free generations only (no outbox in the code; the statement does not quantify over crashes)"),
 }
 
